@@ -233,7 +233,8 @@ def pendingDiffName (cfg : Cfg) (m : M) : M :=
   if !pendingTest m then m
   else if m.modeInfo ≠ [] then
     let line := formatLabel cfg.labels.modified ++ (repeatedFilePath m.diffLine m.diffLineG).getD []
-    writeGeneric cfg (emit m) line line
+    let m1 := writeGeneric cfg (emit m) line line
+    { m1 with handledPair := m1.currentPair }
   else if cfg.colorOnly then m
   else if shouldHandle cfg m ∧ m.handledPair ≠ m.currentPair then
     let m1 := handleHeaderLine cfg (emit m) (m.source = .diffUnified)
